@@ -116,19 +116,53 @@ def parse_term(line):
         return {'kind': 'return'}
     if line in ('resume;', 'unreachable;', 'coroutine_drop;') or line.startswith('terminate') or line.startswith('abort'):
         return {'kind': 'end', 'what': line.rstrip(';')}
-    m = CALL_RE.match(line)
+    return parse_call(line)
+
+
+def parse_call(line):
+    """`[dest = ]callee(args) -> [return: bbN, unwind ...];` | `... -> unwind ...;` | `... -> bbN;` — the callee may itself
+    contain parentheses (`{async fn body of f()}`), so the argument list is the last balanced group before ` -> `."""
+    i = line.rfind(') -> ')
+    if i < 0:
+        return None
+    head, tail = line[:i + 1], line[i + 5:]
+    depth = 0
+    j = len(head) - 1
+    while j >= 0:
+        ch = head[j]
+        if ch == ')':
+            depth += 1
+        elif ch == '(':
+            depth -= 1
+            if depth == 0:
+                break
+        j -= 1
+    if j < 0:
+        return None
+    args = split_args(head[j + 1:-1])
+    pre = head[:j]
+    dest = None
+    m = re.match(r'^(.+?) = (.+)$', pre)
+    if m and re.match(r'^[\w\(\)\*\.\s:#\[\]<>{},&\'-]+$', m.group(1)) and not m.group(1).startswith('<'):
+        dest, callee = m.group(1), m.group(2)
+    else:
+        callee = pre
+    nxt = unwind = None
+    m = re.match(r'^\[return: (bb\d+), unwind(?:: (bb\d+)| continue| unreachable| terminate.*?)\];$', tail)
     if m:
-        return {'kind': 'call', 'dest': m.group(1), 'callee': m.group(2), 'args': split_args(m.group(3)),
-                'next': m.group(4), 'unwind': m.group(5)}
-    m = re.match(r'^(?:(.+?) = )?(.+?)\((.*)\) -> (bb\d+);$', line)
-    if m and not line.startswith('goto'):
-        return {'kind': 'call', 'dest': m.group(1), 'callee': m.group(2), 'args': split_args(m.group(3)),
-                'next': None, 'unwind': m.group(4)}
-    m = CALL_NORET_RE.match(line)
-    if m:
-        return {'kind': 'call', 'dest': m.group(1), 'callee': m.group(2), 'args': split_args(m.group(3)),
-                'next': None, 'unwind': m.group(4)}
-    return None
+        nxt, unwind = m.group(1), m.group(2)
+    else:
+        m = re.match(r'^unwind(?:: (bb\d+)| continue| unreachable| terminate.*?);$', tail)
+        if m:
+            unwind = m.group(1)
+        else:
+            m = re.match(r'^(bb\d+);$', tail)
+            if m:
+                unwind = m.group(1)
+            else:
+                return None
+    return {'kind': 'call', 'dest': dest, 'callee': callee.strip(), 'args': args, 'next': nxt, 'unwind': unwind}
+
 
 
 def parse_mir(path):
